@@ -1,6 +1,7 @@
 package main
 
 import (
+	"os"
 	"context"
 	"errors"
 	"fmt"
@@ -37,6 +38,12 @@ func (a pipeAddr) String() string  { return string(a) }
 
 func (c namedConn) LocalAddr() net.Addr { return pipeAddr(c.name) }
 
+type fixedResolver struct{ ips []net.IPAddr }
+
+func (f fixedResolver) LookupBrokerIPAddr(ctx context.Context, broker kafka.Broker) ([]net.IPAddr, error) {
+	return f.ips, nil
+}
+
 type tJournal struct {
 	mu     sync.Mutex
 	reqs   []int       // tags of the requests received after set-up, in order
@@ -48,6 +55,7 @@ type tBroker struct {
 	mu     sync.Mutex
 	conns  []*tJournal
 	r      *rand.Rand
+	host   string // how the broker is addressed (bootstrap address and metadata)
 	pFault int // per cent of tagged requests that get a fault
 	slow   time.Duration
 	smu    sync.Mutex
@@ -124,7 +132,7 @@ func (b *tBroker) serve(conn net.Conn, j *tJournal, r *rand.Rand) {
 		msg, _ := muxfake.Decode(frame)
 		switch m := msg.(type) {
 		case *metadata.Request:
-			res = &metadata.Response{Brokers: []metadata.ResponseBroker{{NodeID: 1, Host: "broker1", Port: 9092}}, ControllerID: 1,
+			res = &metadata.Response{Brokers: []metadata.ResponseBroker{{NodeID: 1, Host: b.host, Port: 9092}}, ControllerID: 1,
 				Topics: []metadata.ResponseTopic{{Name: "t", Partitions: []metadata.ResponsePartition{
 					{PartitionIndex: 0, LeaderID: 1, ReplicaNodes: []int32{1}, IsrNodes: []int32{1}}}}}}
 		case *listoffsets.Request:
@@ -135,7 +143,7 @@ func (b *tBroker) serve(conn net.Conn, j *tJournal, r *rand.Rand) {
 				Partitions: []listoffsets.ResponsePartition{{Partition: 0, Timestamp: int64(tag), Offset: int64(tag)}}}}}
 		case *findcoordinator.Request:
 			tag, _ = strconv.Atoi(strings.TrimPrefix(m.Key, "g"))
-			res = &findcoordinator.Response{NodeID: 1, Host: "broker1", Port: 9092, ErrorMessage: "g" + strconv.Itoa(tag)}
+			res = &findcoordinator.Response{NodeID: 1, Host: b.host, Port: 9092, ErrorMessage: "g" + strconv.Itoa(tag)}
 		default:
 			return
 		}
@@ -183,7 +191,26 @@ func transportScenario(r *rand.Rand, thorough bool, lateFamily bool) {
 	}
 	closeMid := !lateFamily && r.Intn(5) == 0 // CloseIdleConnections while calls are in flight
 	tr := &kafka.Transport{Dial: b.dial, MetadataTTL: 24 * time.Hour, IdleTimeout: idle, ClientID: "c06"}
-	addr := kafka.TCP("broker1:9092")
+	// non-default option: with a Resolver the pool looks for an idle conn to the resolved address (grabConnTo) instead of
+	// popping the idle stack (grabConn), and connects to one of the resolved addresses
+	// grabConnTo compares the RESOLVED ip:port with the address the conn was dialled at, which is the group's host:port:
+	// an idle conn is only ever found when the broker is addressed by IP (with host names every request connects anew —
+	// noted, not a C06 matter), so the Resolver scenarios address the broker as 127.0.0.1
+	b.host = "broker1"
+	pick := r.Intn(3)
+	if os.Getenv("C06_RESOLVER") != "" {
+		pick = 1 + pick%2
+	}
+	if pick != 0 {
+		b.host = "127.0.0.1"
+	}
+	switch pick {
+	case 1:
+		tr.Resolver = fixedResolver{[]net.IPAddr{{IP: net.IPv4(127, 0, 0, 1)}}}
+	case 2:
+		tr.Resolver = fixedResolver{[]net.IPAddr{{IP: net.IPv4(127, 0, 0, 1)}, {IP: net.IPv4(127, 0, 0, 2)}}}
+	}
+	addr := kafka.TCP(b.host + ":9092")
 	kafka.VerifStart()
 	// warm-up: the pool becomes ready (discover's Metadata exchange on the first ctrl conn)
 	wctx, wcancel := context.WithTimeout(context.Background(), 5*time.Second)
@@ -423,7 +450,21 @@ func transportScenarios(r *rand.Rand, thorough bool) {
 		n = 600
 	}
 	for i := 0; i < n; i++ {
+		// a scenario that does not end (e.g. one pooled connection handed to two requesters) must cost seconds, not the
+		// driver's whole time limit, and must be on record: every call of a scenario has a deadline of at most 600 ms
+		fin := make(chan struct{})
+		go func(i int) {
+			select {
+			case <-fin:
+			case <-time.After(20 * time.Second):
+				fmt.Fprintf(out, "lv transport-scenario-%d 600\thung:after-20s\n", i)
+				out.Flush()
+				fmt.Fprintf(os.Stderr, "c06: transport scenario %d did not finish within 20s\n", i)
+				os.Exit(3)
+			}
+		}(i)
 		transportScenario(r, thorough, i%3 == 0)
 		out.Flush()
+		close(fin)
 	}
 }
